@@ -1,4 +1,4 @@
-(* GENEQ lemma=gen_MULHSU_init_eq requires=gen_MULHSU_init_rd,gen_MULHSU_init_rs1,gen_MULHSU_init_rs2 properties=C01,C02 *)
+(* GENEQ lemma=gen_MULHSU_init_eq requires=gen_MULHSU_init_rd,gen_MULHSU_init_rs1,gen_MULHSU_init_rs2 properties=C01 *)
 From ArchSimGenEq Require Import GenEqTac.
 From ArchSim Require Import Model.RV Model.RVSplit.
 From ArchSimGen Require Import GenRVTypes GenRV.
